@@ -1,17 +1,17 @@
 SPECIFICATION Spec
 CONSTANTS Addrs <- McAddrs
  InitStable <- McInitStable
- AddrN = 5
- Mixed = TRUE
- MaxBlocks = 2
- MaxWrites = 2
+ AddrN = 2
+ Mixed = FALSE
+ MaxBlocks = 4
+ MaxWrites = 1
  MaxStable = 2
  MaxRestart = 0
- MaxReads = 2
+ MaxReads = 0
  LeafOnly = TRUE
  MaxSlots = 2
  CanonSlots = TRUE
- Kinds = {"gaslimit"}
+ Kinds = {"gasused"}
  IdentByHash = TRUE
 INVARIANTS TypeOK ViewIsNearestWrite ForksIsolated PersistEqualsStableView
 PROPERTIES PruneExact WriteLocal ReadPure AttrInert
